@@ -25,10 +25,11 @@ Definition is_reserved (id : N) : bool := (c04_max_raw_id <? id) && (id <=? c04_
 
 (* ---- generator ---- *)
 Definition next_id (g : N) : N * N := (g, u64 (g + 1)).
-(* [guard] = "UpdateOnSync ignores a syncID whose successor does not fit in uint64" (before fix cf81abbbf: no guard) *)
-Definition update_on_sync_gen (guard : bool) (g id : N) : N :=
-  if (g <=? id) && (negb guard || (id + 1 <? two64)) then u64 (id + 1) else g.
-Definition update_on_sync := update_on_sync_gen c04_update_on_sync_guarded.
+(* [limit] = the largest syncID UpdateOnSync reacts to: MaxUint64 without any guard (then syncID+1 wraps, F42),
+   MaxUint64-1 with the guard `syncID < math.MaxUint64` (the source as it is) *)
+Definition update_on_sync_gen (limit : N) (g id : N) : N :=
+  if (g <=? id) && (id <=? limit) then u64 (id + 1) else g.
+Definition update_on_sync := update_on_sync_gen c04_update_on_sync_limit.
 
 (* ---- rows, events ---- *)
 (* r_single: 0, or the registry ID of the row's singleton type (input: the harness reads it from
@@ -213,12 +214,15 @@ Fixpoint agrees_from (st : state) (t : trace) : bool :=
        | Rejected => negb (o_ok o) && list_eqb pair_eqb [] (o_newids o)
                      && rows_eqb [] (o_arg o) && rows_eqb [] (o_creates o) && rows_eqb [] (o_updates o) && rows_eqb [] (o_recs o)
        | Accepted ev' rep =>
-           o_ok o && list_eqb pair_eqb (sort_pairs rep) (o_newids o)
+           (* IRecords.Apply (trust level 0) refuses an event that creates a record under an ID that already is a
+              record's ID, or under one ID twice (C05's subject; what it leaves behind is not modelled): the applied
+              records are then not compared, and the command processor answers with an error instead of NewIDs *)
+           let clash := existsb (fun x => memb x (w_recs (st ws))) (ids (e_creates ev')) || negb (nodupb (ids (e_creates ev'))) in
+           o_ok o
+           && (list_eqb pair_eqb (sort_pairs rep) (o_newids o) || (clash && list_eqb pair_eqb [] (o_newids o)))
            && rows_eqb (e_arg ev') (o_arg o) && rows_eqb (e_creates ev') (o_creates o)
            && rows_eqb (e_updates ev') (o_updates o)
-           (* the records as applied; when two creates of the event carry one ID (F43) IRecords.Apply refuses
-              the event ("sequences violation", C05's subject) and what it leaves behind is not modelled *)
-           && (negb (nodupb (ids (e_creates ev'))) || rows_eqb (e_creates ev') (o_recs o))
+           && (clash || rows_eqb (e_creates ev') (o_recs o))
        end) && agrees_from (upd st ws w') rest
   end.
 Definition agrees (t : trace) : bool := agrees_from st_init t.
